@@ -175,9 +175,14 @@ def check(case):
                 _expect(res, f"coord-get:{name}", f"{name}.{obj}.{lab} (foreign label)", exc, AttributeError)
         else:
             exc, _ = _outcome(lambda: setattr(o, lab, np.zeros(3)))
-            # coordinate labels are read-only; foreign labels must raise AttributeError and change nothing
-            _expect(res, f"coord-set:{name}", f"{name}.{obj}.{lab} = ... ({'read-only' if lab in doc else 'foreign'} label)",
-                    exc, AttributeError)
+            if lab in doc:
+                # the grid's own labels are read-only today (setters commented out in mesh.py); whether writing them is
+                # supported is not part of the property - only that it does not fail in an undocumented way
+                if exc is not None and not isinstance(exc, AttributeError):
+                    res.fail(f"coord-set:{name}", f"{name}.{obj}.{lab} = ... raised {type(exc).__name__}")
+                return res
+            # foreign labels must raise AttributeError and change nothing
+            _expect(res, f"coord-set:{name}", f"{name}.{obj}.{lab} = ... (foreign label)", exc, AttributeError)
             if not _same(before, _snap_mesh(m)) or lab in vars(o):
                 res.fail(f"coord-set-mutates:{name}", f"assigning {name}.{obj}.{lab} changed the mesh")
         return res
